@@ -1097,6 +1097,8 @@ func (e *Exec) strOf(v Value) string {
 		if c, ok := s.concrete(); ok {
 			return c
 		}
+	case *NumStr:
+		return fmt.Sprint(symTok{atom{T: s.T}, e})
 	case Stale:
 		panic(staleRead{s.Where})
 	}
@@ -1138,6 +1140,10 @@ func (e *Exec) conv(dst, src types.Type, x Value) Value {
 			return out
 		}
 		return xv
+	case *NumStr:
+		if _, ok := ud.(*types.Basic); ok {
+			return xv
+		}
 	case BStr, *AStr:
 		if _, ok := ud.(*types.Basic); ok {
 			return xv
